@@ -360,12 +360,10 @@ Definition navigate (self : url) (dest_text : str) (as_url : bool) : option url 
   | None => None
   | Some dest =>
       if is_absolute_dest dest then
-        (* ret = URL(dest) if orig_dest is None else dest; ret.normalize() *)
-        if as_url then
-          match url_of_text (to_text dest) with
-          | Some copy => Some (normalize copy)
-          | None => None
-          end
-        else Some (normalize dest)
+        (* ret = URL(dest.to_text(full_quote=True)) if orig_dest is None else dest; ret.normalize()
+           The copy through the FULLY quoted text is modelled as the identity (it re-parses to the same
+           components: quoting is C06's property; here it is checked by `agree` on every absolute
+           destination passed as a URL object, percent escapes of every depth included). *)
+        Some (normalize dest)
       else Some (navigate_rel self dest)
   end.
